@@ -115,7 +115,8 @@ CLAIMED = {
             "lower bound stays at or before the match start and its upper bound is start + fragment_size (all definitions joined)", "5/C21"),
     "C23": ("who-may-call over the handler call graph (route table extracted from the router), ordering inside the batch add",
             "no HTTP handler can reach the queue-wiping rollback / truncate; /add and /bulk queue through the all-or-nothing "
-            "add_documents, whose checks precede the first append and whose failure arm restores queue and log", "5/C23"),
+            "add_documents, whose checks precede the first append and whose failure arm restores queue and log; every id given to "
+            "delete_documents is logged unconditionally", "5/C23"),
     "C24": ("handler signature table, spawn_blocking containment of heavy core calls, status-constant table, fallback presence, panic-source enumeration over the request context",
             "handlers return Result<_,HttpError> or a response; HttpError renders the JSON envelope with its status; heavy core calls run "
             "inside spawn_blocking with the JoinError mapped to 500; status constants follow the documented table; unknown routes and "
